@@ -68,6 +68,21 @@ def oracle(scn, tr):
         if hv.size > 1 and np.any(np.diff(hv) > 0):
             i = int(np.argmax(np.diff(hv) > 0))
             v.append(viol("e:history-fval-increased", f"iteration {i}->{i + 1}: {hv[i]!r} -> {hv[i + 1]!r}"))
+    # (c, prefix form) a run stopped by max_iter after iteration i follows the same trajectory and returns the i-th record,
+    # so every recorded incumbent value must be the best value evaluated up to its recorded func_count
+    hfc = tr.bads.iteration_history.get("func_count")
+    if h is not None and hfc is not None:
+        for i in range(min(len(h), len(hfc))):
+            if h[i] is None or hfc[i] is None:
+                continue
+            evals += 1
+            n_i = int(hfc[i])
+            f_i = float(np.asarray(h[i]).ravel()[0])
+            if 0 < n_i <= len(ys) and np.min(ys[:n_i]) < f_i:
+                j = int(np.argmin(ys[:n_i]))
+                v.append(viol("c:better-point-discarded-at-iteration", f"iteration {i}: recorded incumbent value {f_i!r} after {n_i} evaluations, but call "
+                              f"{j + 1} ({tr.calls[j]['phase']}) had returned {ys[j]!r}", site=str(tr.calls[j]["phase"])))
+                break
     moves = {e["phase"][0] for e in tr.events if e.get("type") == "incumbent"}
     best = np.min(ys)
     tie = len({xs[i].tobytes() for i in np.where(ys == best)[0]}) > 1
